@@ -13,6 +13,8 @@ package core
 
 import (
 	"bytes"
+	"crypto/sha256"
+	"strings"
 	"encoding/hex"
 	"encoding/json"
 	"errors"
@@ -31,6 +33,7 @@ import (
 	"github.com/drand/drand/v2/crypto"
 	"github.com/drand/drand/v2/internal/chain"
 	"github.com/drand/drand/v2/internal/dkg"
+	"github.com/drand/drand/v2/internal/vfhook"
 	pdkg "github.com/drand/drand/v2/protobuf/dkg"
 	"github.com/drand/drand/v2/protobuf/drand"
 )
@@ -68,6 +71,8 @@ func c07Cases() []c07Params {
 		add("same", "", "")
 		add("addremove", "", "")
 		add("failed", "", "")
+		add("refused-period", "", "")
+		add("refused-late", "", "")
 		return out
 	}
 	for rep := 0; rep < 2; rep++ {
@@ -76,6 +81,10 @@ func c07Cases() []c07Params {
 			add("addremove", "", s)
 			for _, v := range variants {
 				add("failed", v, s)
+			}
+			if rep == 0 {
+				add("refused-period", "", s)
+				add("refused-late", "", s)
 			}
 		}
 	}
@@ -284,13 +293,17 @@ func (m *c07Mon) identities(ns []*c13Node) ([]c07Identity, error) {
 
 // compareIdentity: every field of every answer in `after` must equal the reference answer byte for byte.
 func (m *c07Mon) compareIdentity(ref *drand.ChainInfoPacket, after []c07Identity, when string) {
+	m.compareIdentitySig("C07/identity-changed/", ref, after, when)
+}
+
+func (m *c07Mon) compareIdentitySig(sigPrefix string, ref *drand.ChainInfoPacket, after []c07Identity, when string) {
 	for _, a := range after {
 		m.run.Eval(fmt.Sprintf("%s/%s/identity/%s", m.p.Kind, m.p.Variant, when))
 		m.run.Count("identity_comparisons", 1)
 		p := a.pkt
 		chk := func(field string, same bool, was, is string) {
 			if !same {
-				m.run.Violation("C07/identity-changed/"+field, fmt.Sprintf("%s: node %d serves %s=%s, before the reshare it was %s", when, a.node, field, is, was),
+				m.run.Violation(sigPrefix+field, fmt.Sprintf("%s: node %d serves %s=%s, before the reshare it was %s", when, a.node, field, is, was),
 					m.ci(map[string]any{"node": a.node, "when": when}))
 			}
 		}
@@ -453,6 +466,11 @@ func c07Main(t *testing.T, run *vfRun, p c07Params, dir string) {
 
 	members := append([]*c13Node(nil), ns...)
 	newThr := thr
+
+	if strings.HasPrefix(p.Kind, "refused-") {
+		c07Refused(run, m, p, dir, ns, thr, refPkt, fail)
+		return
+	}
 
 	// ---- the failed / aborted / timed-out attempt
 	if p.Kind == "failed" {
@@ -627,4 +645,259 @@ func c07Main(t *testing.T, run *vfRun, p c07Params, dir string) {
 	run.Count("puts_observed", m.puts)
 	m.mu.Unlock()
 	_ = dkg.Complete
+}
+
+// ---------------------------------------------------------------- reshare completed by the DKG layer, refused by core
+
+func c07FileHashes(n *c13Node) map[string]string {
+	out := map[string]string{}
+	for _, rel := range []string{c13RelGroup, c13RelShare} {
+		b, err := os.ReadFile(filepath.Join(n.folder, rel))
+		if err != nil {
+			out[rel] = "absent: " + err.Error()
+			continue
+		}
+		h := sha256.Sum256(b)
+		out[rel] = fmt.Sprintf("%d:%s", len(b), hex.EncodeToString(h[:12]))
+	}
+	return out
+}
+
+// c07Refused: a reshare that the DKG layer completes but whose output the beacon process must refuse
+// (core's validateGroupTransition) has to leave the node exactly as it was.
+//
+//	refused-period  the leader's DKG database claims another beacon period (stopped, its finished record edited,
+//	                daemon re-created): its honest proposal code then proposes that period, the remaining nodes' DKG
+//	                layer does not compare periods, the DKG completes with a group of the other period and every
+//	                member's core refuses it ("old and new group have different period").
+//	refused-late    an ordinary same-set reshare; on one member the completion is processed late (its goroutine is
+//	                parked at the dkgstore.savefinished.after hook, i.e. after the completion record and before the
+//	                notification, until the transition time has passed): that member refuses ("transition time in the
+//	                past"), the others switch.
+func c07Refused(run *vfRun, m *c07Mon, p c07Params, dir string, ns []*c13Node, thr int, refPkt *drand.ChainInfoPacket, fail func(string, error)) {
+	nt := m.nt
+	rng := vfNewRng(p.Seed)
+	leader := ns[0]
+	x := ns[1+rng.Intn(len(ns)-1)] // the member that is looked at most closely / restarted
+	refusers := ns
+	sigID := "C07/identity-changed-after-refused-reshare/"
+
+	if p.Kind == "refused-period" {
+		if ok, dump := nt.stopNode(leader); !ok {
+			run.Count("daemon_stop_hangs", 1)
+			fail("stopping the leader", errors.New("DrandDaemon.Stop did not return:\n"+dump))
+			return
+		}
+		edit := make(chan error, 1)
+		go func() {
+			st, err := dkg.NewDKGStore(leader.folder)
+			if err != nil {
+				edit <- err
+				return
+			}
+			defer st.Close()
+			fin, err := st.GetFinished(nt.beaconID)
+			if err != nil || fin == nil {
+				edit <- fmt.Errorf("finished record: %v", err)
+				return
+			}
+			fin.BeaconPeriod = 2 * nt.period
+			edit <- st.SaveFinished(nt.beaconID, fin)
+		}()
+		select {
+		case err := <-edit:
+			if err != nil {
+				fail("editing the leader's dkg.db", err)
+				return
+			}
+		case <-time.After(20 * time.Second):
+			fail("editing the leader's dkg.db", errors.New("dkg.db still locked 20 s after Stop"))
+			return
+		}
+		if err := nt.restartNode(leader); err != nil {
+			fail("re-creating the leader's daemon", err)
+			return
+		}
+		h := uint64(0)
+		for _, n := range ns[1:] {
+			if hh, ok := nt.head(n); ok && hh > h {
+				h = hh
+			}
+		}
+		if _, ok := nt.waitHeads(ns, h, 40); !ok {
+			fail("leader catching up after its restart", errors.New("not at the head after 40 periods"))
+			return
+		}
+	} else {
+		refusers = []*c13Node{x}
+		// park x between its completion record and its notification until the transition time has passed
+		vfhook.SetPoint(func(name string, args ...any) {
+			if name != "dkgstore.savefinished.after" || len(args) < 2 {
+				return
+			}
+			st, ok := args[1].(*dkg.DBState)
+			if !ok || st == nil || st.Epoch != 2 || st.FinalGroup == nil || st.KeyShare == nil || st.KeyShare.Share == nil {
+				return
+			}
+			for _, nd := range st.FinalGroup.Nodes {
+				if nd.Index == uint32(st.KeyShare.Share.I) && nd.Address() == x.addr {
+					run.Count("completion_notifications_delayed", 1)
+					for x.clock.Now().Unix() <= st.FinalGroup.TransitionTime+1 {
+						time.Sleep(50 * time.Millisecond)
+					}
+				}
+			}
+		})
+		defer vfhook.SetPoint(nil)
+	}
+
+	before := map[int]map[string]string{}
+	for _, n := range ns {
+		before[n.idx] = c07FileHashes(n)
+	}
+	h0 := uint64(0)
+	for _, n := range ns {
+		if hh, ok := nt.head(n); ok && hh > h0 {
+			h0 = hh
+		}
+	}
+	var tr uint64
+	switch p.Kind {
+	case "refused-period":
+		_, err := nt.runReshare(c13Reshare{leader: leader, remaining: ns, thr: thr, coreRefuses: true})
+		if !errors.Is(err, errC13CoreRefusedOutput) {
+			fail("reshare with another period", fmt.Errorf("unexpected outcome: %v", err))
+			return
+		}
+	case "refused-late":
+		g2, err := nt.runReshare(c13Reshare{leader: leader, remaining: ns, thr: thr})
+		if err != nil {
+			fail("reshare", err)
+			return
+		}
+		tr = common.CurrentRound(g2.TransitionTime, g2.Period, g2.GenesisTime)
+		m.mu.Lock()
+		m.tr = tr
+		m.leavers[x.idx] = true // x keeps its previous-epoch share: its partials must not count after the switch
+		m.mu.Unlock()
+		// wait until x's delayed notification has been processed
+		for x.clock.Now().Unix() <= g2.TransitionTime+3 {
+			time.Sleep(100 * time.Millisecond)
+		}
+	}
+	run.Count("reshares_completed_in_dkg_layer_refused_by_core", 1)
+	// the DKG databases say "epoch 2 complete" on every member
+	for _, n := range refusers {
+		if st, err := nt.dkgStatus(n); err == nil && st.Complete != nil {
+			run.Seen("dkg_layer_epoch_after_refusal", fmt.Sprint(st.Complete.Epoch))
+		}
+	}
+
+	filesCheck := func(when string) {
+		for _, n := range refusers {
+			after := c07FileHashes(n)
+			run.Eval(fmt.Sprintf("%s/files/%s", p.Kind, when))
+			var diff []string
+			for rel, hb := range before[n.idx] {
+				if after[rel] != hb {
+					diff = append(diff, fmt.Sprintf("%s: %s -> %s", filepath.Base(rel), hb, after[rel]))
+				}
+			}
+			if len(diff) > 0 {
+				run.Violation("C07/files-overwritten-by-refused-reshare", fmt.Sprintf("%s: node %d refused the reshare output, yet its key-store files changed: %s", when, n.idx, strings.Join(diff, "; ")),
+					m.ci(map[string]any{"node": n.idx, "when": when}))
+			}
+		}
+	}
+	filesCheck("right-after-refusal")
+	ids, err := m.identities(refusers)
+	if err != nil {
+		fail("ChainInfo after the refusal", err)
+		return
+	}
+	m.compareIdentitySig(sigID, refPkt, ids, "right-after-refusal")
+
+	// the chain goes on: produced by the old group (refused-period) / by the members that switched (refused-late)
+	producers := ns
+	target := h0 + 6
+	bound := 40
+	if p.Kind == "refused-late" {
+		producers = nil
+		for _, n := range ns {
+			if n != x {
+				producers = append(producers, n)
+			}
+		}
+		target = tr + 5
+		bound = int(tr-nt.clockRound()) + 40
+	}
+	run.Eval(p.Kind + "/progress-after-refusal")
+	if !c07Progress(run, m, producers, target, bound, "C07/old-group-halted-after-refused-reshare/"+strings.TrimPrefix(p.Kind, "refused-"),
+		"after a reshare output was refused by core ("+p.Kind+")") {
+		return
+	}
+	filesCheck("after-further-rounds")
+	ids, err = m.identities(ns)
+	if err != nil {
+		fail("ChainInfo after further rounds", err)
+		return
+	}
+	m.compareIdentitySig(sigID, refPkt, ids, "after-further-rounds")
+
+	// a daemon restarted on x's folder serves the old chain info
+	if ok, dump := nt.stopNode(x); !ok {
+		run.Count("daemon_stop_hangs", 1)
+		run.Note("restart part skipped: DrandDaemon.Stop of the member did not return:\n" + dump)
+		return
+	}
+	folder := filepath.Join(dir, "restart-x")
+	if _, _, err := c13CopyTree(x.folder, folder); err != nil {
+		fail("copying the member's folder", err)
+		return
+	}
+	spec, _ := json.Marshal(c13RestartSpec{Folder: folder, Addr: x.addr, Ctrl: x.ctrlPort, Engine: "bolt", BeaconID: nt.beaconID})
+	logf := filepath.Join(dir, "restart-x.log")
+	var child c13ChildResult
+	for attempt := 0; attempt < 4; attempt++ {
+		child = c13StartRestartChild(string(spec), logf)
+		if child.state == "daemon-error" && strings.Contains(child.msg, "address already in use") {
+			child.stop()
+			time.Sleep(700 * time.Millisecond)
+			continue
+		}
+		break
+	}
+	defer child.stop()
+	run.Count("restarts", 1)
+	run.Eval(p.Kind + "/restart")
+	switch child.state {
+	case "loaded":
+	case "watchdog":
+		run.Inconclusive("restarted member did not report within the watchdog")
+		return
+	default:
+		run.Violation("C07/restart-fails-after-refused-reshare", fmt.Sprintf("a daemon started on node %d's folder after the refused reshare does not come up: %s: %s\n%s", x.idx, child.state, child.msg, c13Tail(logf, 1500)),
+			m.ci(map[string]any{"node": x.idx}))
+		return
+	}
+	var pkt *drand.ChainInfoPacket
+	for i := 0; i < 50; i++ {
+		if pkt, err = nt.chainInfo(x); err == nil {
+			break
+		}
+		time.Sleep(100 * time.Millisecond)
+	}
+	if err != nil {
+		run.Violation("C07/restart-fails-after-refused-reshare", fmt.Sprintf("the daemon restarted on node %d's folder does not answer ChainInfo: %v", x.idx, err), m.ci(map[string]any{"node": x.idx}))
+		return
+	}
+	m.compareIdentitySig(sigID, refPkt, []c07Identity{{x.idx, pkt}}, "daemon-restarted-from-disk")
+	// and it holds the files it had before the reshare
+	after := c07FileHashes(&c13Node{folder: folder})
+	for rel, hb := range before[x.idx] {
+		if after[rel] != hb {
+			run.Violation("C07/files-overwritten-by-refused-reshare", fmt.Sprintf("daemon-restarted-from-disk: %s of node %d: %s -> %s", filepath.Base(rel), x.idx, hb, after[rel]),
+				m.ci(map[string]any{"node": x.idx, "when": "daemon-restarted-from-disk"}))
+		}
+	}
 }
